@@ -376,6 +376,10 @@ def run(res, tier, seed, replay_script=None):
     wavelet_hit = set()
     rc1, rt, se1 = run_variant(tdrv, bursts, "tsan", "tsan")
     judge(res, bursts, rt, "tsan", stats, wavelet_hit)
+    try:
+        os.utime(os.path.dirname(os.path.dirname(pdrv)))     # keep our build tree among the recently used ones (vlib prunes the others)
+    except OSError:
+        pass
     rc2, rp, se2 = run_variant(pdrv, bursts, "plain", "plain")
     judge(res, bursts, rp, "plain", stats, wavelet_hit)
     if rc1 != 0 or rc2 != 0:
